@@ -158,7 +158,7 @@ func (sc *C11Scenario) Execute(t *testing.T) *core.Outcome {
 			if sc.Fault == "cancel-in-cb" && k == sc.K {
 				cancelledAt = len(got)
 				cancel()
-				simrt.Yield(siteCallback) // let the driver's context watchers settle
+				simrt.Settle() // database/sql reacts to the cancellation in a goroutine of its own: let it finish first
 			}
 			return nil
 		})
@@ -206,6 +206,10 @@ func (sc *C11Scenario) Execute(t *testing.T) *core.Outcome {
 		}
 		if sc.Fault == "cancel-before" && (rerr == nil && want > 0 || len(got) > 0) {
 			out.V("cancelled-replay", "[%s] Replay with an already cancelled context delivered %d events and returned %v", sc.Store, len(got), rerr)
+		}
+		if cancelledAt >= 0 && cancelledAt < want && rerr == nil {
+			// the context was cancelled while events were still to be delivered: that is never "delivered all, nil"
+			out.VS("cancel-not-reported", sig("cancel-not-reported"), "[%s batch=%d] the callback cancelled the context at its call %d of %d, yet Replay returned nil (delivered %d)", sc.Store, sc.BatchSize, cancelledAt, want, len(got))
 		}
 		if sc.Fault == "none" && rerr != nil {
 			out.V("replay-error", "[%s batch=%d] fault-free Replay returned %v", sc.Store, sc.BatchSize, rerr)
